@@ -192,11 +192,16 @@ def gen_program(nblocks, server=False, static=True, allow_uri=True):
         for _ in range(rng.randrange(0, 6)):
             e = rng.choice(ENC)
             if e in ("append", "prepend"):
-                steps.append((rcase(e), rng.choice([b"", rbytes(1, 6), rbytes(1, 2)])))
+                steps.append((rcase(e), rng.choice([b"", rbytes(1, 6), rbytes(1, 2), rng.choice(SYNTAX_ARGS)])))
             else:
                 steps.append((rcase(e), True))
         steps.append((rcase(t[0]), t[1]))
     return steps, members
+
+
+# arguments / payloads that look like URL or header syntax: they are data and must come back unchanged
+SYNTAX_ARGS = [b"%41", b"session%3D", b"%7Cend", b"a%2Fb%2f", b"%", b"%zz", b"+", b"a+b", b"&x=1", b"?q", b"#frag", b"=", b"; path=/", b": ",
+               b"\r\n", b" ", b"\x00"]
 
 
 def payload():
@@ -204,6 +209,8 @@ def payload():
     if r < 0.1:
         return b""
     if r < 0.2:
+        return rng.choice([b"100%41bc", b"%41", b"a+b c", b"k=v&k2=v2", b"x%", b"%%%", b"caf\xc3\xa9%C3%A9"])
+    if r < 0.3:
         return bytes(range(256))
     return rbytes(1, 48)
 
